@@ -174,6 +174,14 @@ def run(ctx):
         runpass.run_rules(ctx, F, "C17")
     except Unrecognised as e:
         ctx.unrecognised("C17.run-merging", e.msg, e.fn, e.line)
+    # the passes merge what rank_pairs() reports: a complete rank pair that is left out of it is written combo by combo after
+    # all rank-pair tokens instead of inside its run (C12's reporting rule, evaluated here as well)
+    try:
+        from rules import c12
+        from sa.report import PrefixCtx
+        c12.run(PrefixCtx(ctx, "C12", "C17", allowed=["probes"]))
+    except Unrecognised as e:
+        ctx.unrecognised("C17.probes", e.msg, e.fn, e.line)
     if ctx.tier == "thorough":
         from sa import xref
         from rules import selftest
